@@ -57,7 +57,7 @@ def run(run):
     rc, out = lib.coq_make(["Gen/GenData.vo", "Model/Expand.vo"])
     if rc != 0:
         run.correspondence_break("Gen/GenData.v or Model/Expand.v does not build", None, error=out[-1500:])
-    n = 700 if run.tier == "quick" else 20000
+    n = 1200 if run.tier == "quick" else 20000
     cases = [make_case(run.rng) for _ in range(n)]
     c04.run_cases(run, cases, "sel")
     check_twins(run, run.rng, run.tier == "quick")
